@@ -1,17 +1,1862 @@
-//! Engine `roundtrip` — placeholder (not written yet).
+//! Engine `roundtrip` (C02): parsed streams reproduce exactly what the dump encodes, in either
+//! byte order.
+//!
+//! A case line is an abstract dump model (compact text, see `Model::parse`):
+//!   roundtrip fl=<flags> pad=<0|1> T=<threads> M=<modules> R=<regions> I=<meminfo> N=<thread names>
+//!             U=<unloaded> X=<exception|-> S=<system info|-> D=<extra raw streams>
+//!
+//! `exec` serializes the model with **minidump-synth** (a foreign serializer: directory last, data
+//! interleaved with the streams) in {LE, BE} x {MemoryList, Memory64List}, reads each dump with the
+//! real crate and renders what it reports (`real_report`). The oracle, on the implementation alone:
+//!   * every report equals `expected_report` — an independent re-derivation, written here from the
+//!     documented rules, of what a reader must report for the model (items in file order, blobs
+//!     byte-identical, identifiers per the documented derivation);
+//!   * every address of every isolated region reads back the model's byte through
+//!     `memory_at_address` + `get_memory_at_address::<u8>` (all addresses up to 4 KiB, sampled above);
+//!   * the LE and BE reports agree;
+//!   * raw streams listed earlier in the directory under a type that occurs again later are never
+//!     served (`get_raw_stream` returns the last one).
+//! The Lean side is asked `roundtrip all <hex x4> <model>`: it decodes the very same four files with
+//! the model decoder (compared verbatim with `real_report`), and returns its own four encodings, which
+//! `same` reads with the REAL crate and compares with `expected_report`, plus `report m e f`
+//! (the right-hand side of the round-trip theorem), compared with `expected_report` too.
+
 use crate::common::*;
+use minidump::format as md;
+use minidump::system_info::Os;
+use minidump::*;
+use minidump_synth as synth;
+use std::fmt::Write as _;
+use minidump::Module as _;
+use synth::SectionExtra;
+use test_assembler::{Endian as TEndian, Section};
 
 pub struct Roundtrip;
+
+// ------------------------------------------------------------------------------------- the model
+
+#[derive(Clone, Debug, PartialEq)]
+struct Blob {
+    text: String,
+    data: Vec<u8>,
+}
+
+fn pattern_byte(seed: u64, i: u64) -> u8 {
+    ((seed + i * 167 + i / 256 * 13 + i / 7) % 256) as u8
+}
+
+impl Blob {
+    fn parse(s: &str) -> Option<Blob> {
+        let data = if let Some(rest) = s.strip_prefix('g') {
+            let (seed, len) = rest.split_once('x')?;
+            let (seed, len): (u64, u64) = (seed.parse().ok()?, len.parse().ok()?);
+            if len > (1 << 20) {
+                return None;
+            }
+            (0..len).map(|i| pattern_byte(seed, i)).collect()
+        } else {
+            unhex(s)?
+        };
+        Some(Blob { text: s.to_string(), data })
+    }
+    fn raw(data: Vec<u8>) -> Blob {
+        Blob { text: hex(&data), data }
+    }
+    fn pat(seed: u64, len: usize) -> Blob {
+        Blob::parse(&format!("g{seed}x{len}")).unwrap()
+    }
+}
+
+#[derive(Clone, Debug, PartialEq)]
+struct Thread {
+    id: u32,
+    suspend: u32,
+    pclass: u32,
+    prio: u32,
+    teb: u64,
+    sbase: u64,
+    stack: Blob,
+    ctx: Blob,
+}
+
+#[derive(Clone, Debug, PartialEq)]
+enum Cv {
+    P7 { d1: u32, d2: u16, d3: u16, d4: Blob, age: u32, file: Blob },
+    P2 { off: u32, sig: u32, age: u32, file: Blob },
+    Elf(Blob),
+    Unk(u32, Blob),
+}
+
+#[derive(Clone, Debug, PartialEq)]
+struct Module {
+    base: u64,
+    size: u32,
+    chk: u32,
+    time: u32,
+    ver: [u32; 13],
+    name: Vec<u32>,
+    cv: Option<Cv>,
+}
+
+#[derive(Clone, Debug, PartialEq)]
+struct Region {
+    base: u64,
+    bytes: Blob,
+}
+
+#[derive(Clone, Debug, PartialEq)]
+struct Unloaded {
+    base: u64,
+    size: u32,
+    chk: u32,
+    time: u32,
+    name: Vec<u32>,
+}
+
+#[derive(Clone, Debug, PartialEq)]
+struct Exc {
+    tid: u32,
+    code: u32,
+    flags: u32,
+    rec: u64,
+    addr: u64,
+    np: u32,
+    info: [u64; 15],
+    ctx: Blob,
+}
+
+#[derive(Clone, Debug, PartialEq)]
+struct Sys {
+    arch: u16,
+    level: u16,
+    rev: u16,
+    nproc: u8,
+    ptype: u8,
+    major: u32,
+    minor: u32,
+    build: u32,
+    plat: u32,
+    suite: u16,
+    cpu: Blob,
+    csd: Vec<u32>,
+}
+
+#[derive(Clone, Debug, PartialEq, Default)]
+struct Model {
+    flags: u64,
+    pad: bool,
+    threads: Vec<Thread>,
+    modules: Vec<Module>,
+    regions: Vec<Region>,
+    /// base, allocation base, allocation protection, size, state, protection, type
+    infos: Vec<[u64; 7]>,
+    names: Vec<(u32, Vec<u32>)>,
+    unloaded: Vec<Unloaded>,
+    exc: Option<Exc>,
+    sys: Option<Sys>,
+    extra: Vec<(u32, Blob)>,
+}
+
+fn name_text(cs: &[u32]) -> String {
+    if cs.is_empty() {
+        return "-".into();
+    }
+    cs.iter().map(|c| format!("{:x}", c)).collect::<Vec<_>>().join(".")
+}
+fn parse_name(s: &str) -> Option<Vec<u32>> {
+    if s == "-" {
+        return Some(vec![]);
+    }
+    s.split('.').map(|p| u32::from_str_radix(p, 16).ok().filter(|c| char::from_u32(*c).is_some())).collect()
+}
+fn name_string(cs: &[u32]) -> String {
+    cs.iter().filter_map(|c| char::from_u32(*c)).collect()
+}
+fn nums<T: std::str::FromStr>(s: &str, sep: char) -> Option<Vec<T>> {
+    if s.is_empty() {
+        return Some(vec![]);
+    }
+    s.split(sep).map(|p| p.parse().ok()).collect()
+}
+fn dotted<T: std::fmt::Display>(xs: &[T]) -> String {
+    xs.iter().map(|x| x.to_string()).collect::<Vec<_>>().join(".")
+}
+
+impl Cv {
+    fn text(&self) -> String {
+        match self {
+            Cv::P7 { d1, d2, d3, d4, age, file } => format!("p7:{d1}:{d2}:{d3}:{}:{age}:{}", d4.text, file.text),
+            Cv::P2 { off, sig, age, file } => format!("p2:{off}:{sig}:{age}:{}", file.text),
+            Cv::Elf(b) => format!("elf:{}", b.text),
+            Cv::Unk(sig, rest) => format!("unk:{sig}:{}", rest.text),
+        }
+    }
+    fn parse(s: &str) -> Option<Option<Cv>> {
+        if s == "-" {
+            return Some(None);
+        }
+        let p: Vec<&str> = s.split(':').collect();
+        Some(Some(match p.as_slice() {
+            ["p7", d1, d2, d3, d4, age, file] => Cv::P7 {
+                d1: d1.parse().ok()?,
+                d2: d2.parse().ok()?,
+                d3: d3.parse().ok()?,
+                d4: Blob::parse(d4).filter(|b| b.data.len() == 8)?,
+                age: age.parse().ok()?,
+                file: Blob::parse(file)?,
+            },
+            ["p2", off, sig, age, file] => {
+                Cv::P2 { off: off.parse().ok()?, sig: sig.parse().ok()?, age: age.parse().ok()?, file: Blob::parse(file)? }
+            }
+            ["elf", b] => Cv::Elf(Blob::parse(b)?),
+            ["unk", sig, rest] => Cv::Unk(sig.parse().ok()?, Blob::parse(rest)?),
+            _ => return None,
+        }))
+    }
+}
+
+fn list<T>(s: &str, f: impl Fn(&[&str]) -> Option<T>) -> Option<Vec<T>> {
+    if s.is_empty() {
+        return Some(vec![]);
+    }
+    s.split(';').map(|item| f(&item.split(',').collect::<Vec<_>>())).collect()
+}
+
+impl Model {
+    fn line(&self) -> String {
+        let t: Vec<String> = self
+            .threads
+            .iter()
+            .map(|t| format!("{},{},{},{},{},{},{},{}", t.id, t.suspend, t.pclass, t.prio, t.teb, t.sbase, t.stack.text, t.ctx.text))
+            .collect();
+        let m: Vec<String> = self
+            .modules
+            .iter()
+            .map(|m| {
+                format!(
+                    "{},{},{},{},{},{},{}",
+                    m.base,
+                    m.size,
+                    m.chk,
+                    m.time,
+                    dotted(&m.ver),
+                    name_text(&m.name),
+                    m.cv.as_ref().map(|c| c.text()).unwrap_or("-".into())
+                )
+            })
+            .collect();
+        let r: Vec<String> = self.regions.iter().map(|r| format!("{},{}", r.base, r.bytes.text)).collect();
+        let i: Vec<String> = self.infos.iter().map(|i| i.iter().map(|x| x.to_string()).collect::<Vec<_>>().join(",")).collect();
+        let n: Vec<String> = self.names.iter().map(|(id, n)| format!("{},{}", id, name_text(n))).collect();
+        let u: Vec<String> =
+            self.unloaded.iter().map(|u| format!("{},{},{},{},{}", u.base, u.size, u.chk, u.time, name_text(&u.name))).collect();
+        let x = match &self.exc {
+            None => "-".to_string(),
+            Some(x) => format!("{},{},{},{},{},{},{},{}", x.tid, x.code, x.flags, x.rec, x.addr, x.np, dotted(&x.info), x.ctx.text),
+        };
+        let s = match &self.sys {
+            None => "-".to_string(),
+            Some(s) => format!(
+                "{},{},{},{},{},{},{},{},{},{},{},{}",
+                s.arch,
+                s.level,
+                s.rev,
+                s.nproc,
+                s.ptype,
+                s.major,
+                s.minor,
+                s.build,
+                s.plat,
+                s.suite,
+                s.cpu.text,
+                name_text(&s.csd)
+            ),
+        };
+        let d: Vec<String> = self.extra.iter().map(|(ty, b)| format!("{},{}", ty, b.text)).collect();
+        format!(
+            "roundtrip fl={} pad={} T={} M={} R={} I={} N={} U={} X={} S={} D={}",
+            self.flags,
+            self.pad as u8,
+            t.join(";"),
+            m.join(";"),
+            r.join(";"),
+            i.join(";"),
+            n.join(";"),
+            u.join(";"),
+            x,
+            s,
+            d.join(";")
+        )
+    }
+
+    fn parse(case: &str) -> Option<Model> {
+        let f: Vec<&str> = case.split(' ').collect();
+        if f.len() != 12 || f[0] != "roundtrip" {
+            return None;
+        }
+        let mut m = Model { flags: f[1].strip_prefix("fl=")?.parse().ok()?, ..Default::default() };
+        m.pad = match f[2].strip_prefix("pad=")? {
+            "0" => false,
+            "1" => true,
+            _ => return None,
+        };
+        m.threads = list(f[3].strip_prefix("T=")?, |p| match p {
+            [id, su, pc, pr, teb, sb, st, cx] => Some(Thread {
+                id: id.parse().ok()?,
+                suspend: su.parse().ok()?,
+                pclass: pc.parse().ok()?,
+                prio: pr.parse().ok()?,
+                teb: teb.parse().ok()?,
+                sbase: sb.parse().ok()?,
+                stack: Blob::parse(st)?,
+                ctx: Blob::parse(cx)?,
+            }),
+            _ => None,
+        })?;
+        m.modules = list(f[4].strip_prefix("M=")?, |p| match p {
+            [base, size, chk, time, ver, name, cv] => Some(Module {
+                base: base.parse().ok()?,
+                size: size.parse().ok()?,
+                chk: chk.parse().ok()?,
+                time: time.parse().ok()?,
+                ver: nums::<u32>(ver, '.')?.try_into().ok()?,
+                name: parse_name(name)?,
+                cv: Cv::parse(cv)?,
+            }),
+            _ => None,
+        })?;
+        m.regions = list(f[5].strip_prefix("R=")?, |p| match p {
+            [base, b] => Some(Region { base: base.parse().ok()?, bytes: Blob::parse(b)? }),
+            _ => None,
+        })?;
+        m.infos = list(f[6].strip_prefix("I=")?, |p| {
+            let v: Vec<u64> = p.iter().map(|x| x.parse().ok()).collect::<Option<_>>()?;
+            let a: [u64; 7] = v.try_into().ok()?;
+            if a[2] > u32::MAX as u64 || a[4] > u32::MAX as u64 || a[5] > u32::MAX as u64 || a[6] > u32::MAX as u64 {
+                return None;
+            }
+            Some(a)
+        })?;
+        m.names = list(f[7].strip_prefix("N=")?, |p| match p {
+            [id, n] => Some((id.parse().ok()?, parse_name(n)?)),
+            _ => None,
+        })?;
+        m.unloaded = list(f[8].strip_prefix("U=")?, |p| match p {
+            [base, size, chk, time, n] => Some(Unloaded {
+                base: base.parse().ok()?,
+                size: size.parse().ok()?,
+                chk: chk.parse().ok()?,
+                time: time.parse().ok()?,
+                name: parse_name(n)?,
+            }),
+            _ => None,
+        })?;
+        let x = f[9].strip_prefix("X=")?;
+        m.exc = if x == "-" {
+            None
+        } else {
+            let p: Vec<&str> = x.split(',').collect();
+            match p.as_slice() {
+                [tid, code, flags, rec, addr, np, info, ctx] => Some(Exc {
+                    tid: tid.parse().ok()?,
+                    code: code.parse().ok()?,
+                    flags: flags.parse().ok()?,
+                    rec: rec.parse().ok()?,
+                    addr: addr.parse().ok()?,
+                    np: np.parse().ok()?,
+                    info: nums::<u64>(info, '.')?.try_into().ok()?,
+                    ctx: Blob::parse(ctx)?,
+                }),
+                _ => return None,
+            }
+        };
+        let s = f[10].strip_prefix("S=")?;
+        m.sys = if s == "-" {
+            None
+        } else {
+            let p: Vec<&str> = s.split(',').collect();
+            match p.as_slice() {
+                [arch, level, rev, nproc, pt, major, minor, build, plat, suite, cpu, csd] => Some(Sys {
+                    arch: arch.parse().ok()?,
+                    level: level.parse().ok()?,
+                    rev: rev.parse().ok()?,
+                    nproc: nproc.parse().ok()?,
+                    ptype: pt.parse().ok()?,
+                    major: major.parse().ok()?,
+                    minor: minor.parse().ok()?,
+                    build: build.parse().ok()?,
+                    plat: plat.parse().ok()?,
+                    suite: suite.parse().ok()?,
+                    cpu: Blob::parse(cpu).filter(|b| b.data.len() == 24)?,
+                    csd: parse_name(csd)?,
+                }),
+                _ => return None,
+            }
+        };
+        m.extra = list(f[11].strip_prefix("D=")?, |p| match p {
+            [ty, b] => Some((ty.parse().ok()?, Blob::parse(b)?)),
+            _ => None,
+        })?;
+        Some(m)
+    }
+}
+
+// ------------------------------------------------------------------- serializing with minidump-synth
+
+fn tend(be: bool) -> TEndian {
+    if be {
+        TEndian::Big
+    } else {
+        TEndian::Little
+    }
+}
+
+fn cv_section(cv: &Cv, e: TEndian) -> Section {
+    let s = Section::with_endian(e);
+    match cv {
+        Cv::P7 { d1, d2, d3, d4, age, file } => s
+            .D32(md::CvSignature::Pdb70 as u32)
+            .D32(*d1)
+            .D16(*d2)
+            .D16(*d3)
+            .append_bytes(&d4.data)
+            .D32(*age)
+            .append_bytes(&file.data),
+        Cv::P2 { off, sig, age, file } => s.D32(md::CvSignature::Pdb20 as u32).D32(*off).D32(*sig).D32(*age).append_bytes(&file.data),
+        Cv::Elf(b) => s.D32(md::CvSignature::Elf as u32).append_bytes(&b.data),
+        Cv::Unk(sig, rest) => s.D32(*sig).append_bytes(&rest.data),
+    }
+}
+
+fn version_info(v: &[u32; 13]) -> md::VS_FIXEDFILEINFO {
+    md::VS_FIXEDFILEINFO {
+        signature: v[0],
+        struct_version: v[1],
+        file_version_hi: v[2],
+        file_version_lo: v[3],
+        product_version_hi: v[4],
+        product_version_lo: v[5],
+        file_flags_mask: v[6],
+        file_flags: v[7],
+        file_os: v[8],
+        file_type: v[9],
+        file_subtype: v[10],
+        file_date_hi: v[11],
+        file_date_lo: v[12],
+    }
+}
+
+/// a `read_stream_list` stream written by hand: count, optional 4 bytes of padding, entries
+fn manual_list(ty: u32, e: TEndian, pad: bool, entries: Vec<Section>) -> synth::SimpleStream {
+    let mut s = Section::with_endian(e).D32(entries.len() as u32);
+    if pad {
+        s = s.D32(0);
+    }
+    for en in entries {
+        s = s.append_section(en);
+    }
+    synth::SimpleStream { stream_type: ty, section: s }
+}
+
+/// Serialize the model with minidump-synth. Lists that are empty are still emitted (as explicit
+/// empty streams) so that both serializers produce the same set of streams.
+fn build_synth(m: &Model, be: bool, mem64: bool) -> Option<Vec<u8>> {
+    let e = tend(be);
+    let mut d = synth::SynthMinidump::with_endian(e).flags(m.flags);
+    // synth's Exception / SystemInfo cite their out-of-band data by plain numbers: put those data
+    // first, right after the 32-byte header, where their offsets are known.
+    let mut fixed_off: u32 = 32;
+    if let Some(x) = &m.exc {
+        let mut sx = synth::Exception::new(e);
+        sx.thread_id = x.tid;
+        sx.exception_record.exception_code = x.code;
+        sx.exception_record.exception_flags = x.flags;
+        sx.exception_record.exception_record = x.rec;
+        sx.exception_record.exception_address = x.addr;
+        sx.exception_record.number_parameters = x.np;
+        sx.exception_record.exception_information = x.info;
+        sx.thread_context = (x.ctx.data.len() as u32, fixed_off);
+        d = d.add(Section::with_endian(e).append_bytes(&x.ctx.data));
+        fixed_off += x.ctx.data.len() as u32;
+        d = d.add_exception(sx);
+    }
+    if let Some(s) = &m.sys {
+        let mut si = synth::SystemInfo::new(e);
+        si.processor_architecture = s.arch;
+        si.processor_level = s.level;
+        si.processor_revision = s.rev;
+        si.number_of_processors = s.nproc;
+        si.product_type = s.ptype;
+        si.major_version = s.major;
+        si.minor_version = s.minor;
+        si.build_number = s.build;
+        si.platform_id = s.plat;
+        si.csd_version_rva = fixed_off;
+        si.suite_mask = s.suite;
+        let w = |i: usize| {
+            let a = [s.cpu.data[4 * i], s.cpu.data[4 * i + 1], s.cpu.data[4 * i + 2], s.cpu.data[4 * i + 3]];
+            if be {
+                u32::from_be_bytes(a)
+            } else {
+                u32::from_le_bytes(a)
+            }
+        };
+        si.cpu = synth::CpuInfo::X86CpuInfo {
+            vendor_id: [w(0), w(1), w(2)],
+            version_information: w(3),
+            feature_information: w(4),
+            amd_extended_cpu_features: w(5),
+        };
+        let csd = synth::DumpString::new(&name_string(&s.csd), e);
+        d = d.add(csd);
+        d = d.add_system_info(si);
+    }
+    // raw extra streams: first in the directory
+    for (ty, b) in &m.extra {
+        d = d.add_stream(synth::SimpleStream { stream_type: *ty, section: Section::with_endian(e).append_bytes(&b.data) });
+    }
+    let manual = m.pad;
+    // threads: synth::Thread writes zeros for suspend count, priorities and TEB; a list with any other
+    // value is written record by record (still through synth's sections and directory)
+    let manual_threads = manual || m.threads.iter().any(|t| t.suspend != 0 || t.pclass != 0 || t.prio != 0 || t.teb != 0);
+    let mut thread_entries = Vec::new();
+    for t in &m.threads {
+        let stack = synth::Memory::with_section(Section::with_endian(e).append_bytes(&t.stack.data), t.sbase);
+        let ctx = Section::with_endian(e).append_bytes(&t.ctx.data);
+        if !manual_threads {
+            d = d.add_thread(synth::Thread::new(e, t.id, &stack, &ctx));
+        } else {
+            let sec = Section::with_endian(e)
+                .D32(t.id)
+                .D32(t.suspend)
+                .D32(t.pclass)
+                .D32(t.prio)
+                .D64(t.teb)
+                .cite_memory(&stack)
+                .cite_location(&ctx);
+            thread_entries.push(sec);
+        }
+        d = d.add(ctx).add(stack);
+    }
+    if manual_threads || m.threads.is_empty() {
+        d = d.add_stream(manual_list(md::MINIDUMP_STREAM_TYPE::ThreadListStream as u32, e, m.pad, thread_entries));
+    }
+    // modules
+    let mut module_entries = Vec::new();
+    for x in &m.modules {
+        let name = synth::DumpString::new(&name_string(&x.name), e);
+        let vi = version_info(&x.ver);
+        let mut module = synth::Module::new(e, x.base, x.size, &name, x.time, x.chk, Some(&vi));
+        let cv = x.cv.as_ref().map(|c| cv_section(c, e));
+        if let Some(cv) = &cv {
+            module = module.cv_record(cv);
+        }
+        if manual {
+            module_entries.push(Section::from(module));
+        } else {
+            d = d.add_module(module);
+        }
+        d = d.add(name);
+        if let Some(cv) = cv {
+            d = d.add(cv);
+        }
+    }
+    if manual || m.modules.is_empty() {
+        d = d.add_stream(manual_list(md::MINIDUMP_STREAM_TYPE::ModuleListStream as u32, e, m.pad, module_entries));
+    }
+    // memory
+    if mem64 {
+        for r in &m.regions {
+            d = d.add_memory64(synth::Memory::with_section(Section::with_endian(e).append_bytes(&r.bytes.data), r.base));
+        }
+        if m.regions.is_empty() {
+            d = d.add_stream(synth::SimpleStream {
+                stream_type: md::MINIDUMP_STREAM_TYPE::Memory64ListStream as u32,
+                section: Section::with_endian(e).D64(0).D64(32),
+            });
+        }
+    } else {
+        let mut entries = Vec::new();
+        for r in &m.regions {
+            let mem = synth::Memory::with_section(Section::with_endian(e).append_bytes(&r.bytes.data), r.base);
+            if manual {
+                entries.push(mem.cite_memory_in(Section::with_endian(e)));
+                d = d.add(mem);
+            } else {
+                d = d.add_memory(mem);
+            }
+        }
+        if manual || m.regions.is_empty() {
+            d = d.add_stream(manual_list(md::MINIDUMP_STREAM_TYPE::MemoryListStream as u32, e, m.pad, entries));
+        }
+    }
+    // memory info
+    for i in &m.infos {
+        d = d.add_memory_info(synth::MemoryInfo::new(e, i[0], i[1], i[2] as u32, i[3], i[4] as u32, i[5] as u32, i[6] as u32));
+    }
+    if m.infos.is_empty() {
+        d = d.add_stream(synth::SimpleStream {
+            stream_type: md::MINIDUMP_STREAM_TYPE::MemoryInfoListStream as u32,
+            section: Section::with_endian(e).D32(12).D32(48).D32(0),
+        });
+    }
+    // thread names
+    let mut name_entries = Vec::new();
+    for (id, n) in &m.names {
+        let s = synth::DumpString::new(&name_string(n), e);
+        let tn = synth::ThreadName::new(e, *id, Some(&s));
+        if manual {
+            name_entries.push(Section::from(tn));
+        } else {
+            d = d.add_thread_name(tn);
+        }
+        d = d.add(s);
+    }
+    if manual || m.names.is_empty() {
+        d = d.add_stream(manual_list(md::MINIDUMP_STREAM_TYPE::ThreadNamesStream as u32, e, m.pad, name_entries));
+    }
+    // unloaded modules
+    for u in &m.unloaded {
+        let s = synth::DumpString::new(&name_string(&u.name), e);
+        d = d.add_unloaded_module(synth::UnloadedModule::new(e, u.base, u.size, &s, u.time, u.chk)).add(s);
+    }
+    if m.unloaded.is_empty() {
+        d = d.add_stream(synth::SimpleStream {
+            stream_type: md::MINIDUMP_STREAM_TYPE::UnloadedModuleListStream as u32,
+            section: Section::with_endian(e).D32(12).D32(24).D32(0),
+        });
+    }
+    d.finish()
+}
+
+// -------------------------------------------------------------------------------- canonical report
+
+fn fnv_hex(b: &[u8]) -> String {
+    format!("{:x}", fnv64(b))
+}
+fn blob(b: &[u8]) -> String {
+    format!("{}:{}", b.len(), fnv_hex(b))
+}
+fn opt_blob(b: Option<&[u8]>) -> String {
+    match b {
+        None => "~".into(),
+        Some(b) => blob(b),
+    }
+}
+fn opt_str(s: Option<String>) -> String {
+    match s {
+        None => "~".into(),
+        Some(s) if s.is_empty() => "-".into(),
+        Some(s) => s,
+    }
+}
+fn str_scalars(s: &str) -> Vec<u32> {
+    s.chars().map(|c| c as u32).collect()
+}
+fn err_name(e: &Error) -> String {
+    format!("err {}", e.name())
+}
+
+/// the private `context: Option<&[u8]>` of a thread / an exception, read off the derived Debug text
+fn debug_bytes(dbg: &str, key: &str) -> Option<Option<Vec<u8>>> {
+    let p = dbg.rfind(key)?;
+    let rest = &dbg[p + key.len()..];
+    if rest.starts_with("None") {
+        return Some(None);
+    }
+    let rest = rest.strip_prefix("Some([")?;
+    let end = rest.find("])")?;
+    let inner = &rest[..end];
+    if inner.trim().is_empty() {
+        return Some(Some(vec![]));
+    }
+    inner.split(',').map(|x| x.trim().parse::<u8>().ok()).collect::<Option<Vec<u8>>>().map(Some)
+}
+
+type Dump<'a> = Minidump<'a, &'a [u8]>;
+
+fn cv_text(cv: Option<&CodeView>, be: bool) -> String {
+    match cv {
+        None => "-".into(),
+        Some(CodeView::Pdb70(r)) => format!(
+            "p7:{}:{}:{}:{}:{}:{}",
+            r.signature.data1,
+            r.signature.data2,
+            r.signature.data3,
+            blob(&r.signature.data4),
+            r.age,
+            blob(&r.pdb_file_name)
+        ),
+        Some(CodeView::Pdb20(r)) => format!("p2:{}:{}:{}:{}", r.cv_offset, r.signature, r.age, blob(&r.pdb_file_name)),
+        Some(CodeView::Elf(r)) => format!("elf:{}", blob(&r.build_id)),
+        Some(CodeView::Unknown(raw)) => {
+            if raw.len() < 4 {
+                return format!("unk-short:{}", blob(raw));
+            }
+            let a = [raw[0], raw[1], raw[2], raw[3]];
+            let sig = if be { u32::from_be_bytes(a) } else { u32::from_le_bytes(a) };
+            format!("unk:{}:{}", sig, blob(&raw[4..]))
+        }
+    }
+}
+
+/// the probe addresses of a region list (base, bytes-length): around both ends of every region
+fn probe_addrs(rs: &[(u64, u64)]) -> Vec<u64> {
+    let mut v = Vec::new();
+    for &(base, len) in rs {
+        let last = base as u128 + len as u128;
+        if base > 0 {
+            v.push(base - 1);
+        }
+        v.push(base);
+        if len > 0 && last - 1 <= u64::MAX as u128 {
+            v.push((last - 1) as u64);
+        }
+        if last <= u64::MAX as u128 {
+            v.push(last as u64);
+        }
+    }
+    v
+}
+
+/// What the real reader reports for `bytes`, in the format of `MdModel.Encode.showReported`.
+/// `ids`: thread ids to ask the (private) thread-name map for.
+fn real_report(bytes: &[u8], ids: &[u32]) -> String {
+    let dump: Dump = match Minidump::read(bytes) {
+        Ok(d) => d,
+        Err(e) => return err_name(&e),
+    };
+    let be = dump.endian == scroll::Endian::Big;
+    let mut o = String::new();
+    let _ = write!(o, "{} fl={}", if be { "be" } else { "le" }, dump.header.flags);
+    // threads
+    o.push_str(" T=");
+    match dump.get_stream::<MinidumpThreadList>() {
+        Err(e) => o.push_str(&err_name(&e)),
+        Ok(l) => {
+            let empty = UnifiedMemoryList::default();
+            let items: Vec<String> = l
+                .threads
+                .iter()
+                .map(|t| {
+                    let dbg = format!("{:?}", t);
+                    let ctx = match debug_bytes(&dbg[..dbg.rfind(", stack: ").unwrap_or(dbg.len())], " }, context: ") {
+                        Some(c) => opt_blob(c.as_deref()),
+                        None => "?".into(),
+                    };
+                    let stack = match t.stack_memory(&empty) {
+                        None => "~".to_string(),
+                        Some(UnifiedMemory::Memory(m)) => blob(m.bytes),
+                        Some(UnifiedMemory::Memory64(m)) => blob(m.bytes),
+                    };
+                    format!(
+                        "{},{},{},{},{},{},{},{}",
+                        t.raw.thread_id,
+                        t.raw.suspend_count,
+                        t.raw.priority_class,
+                        t.raw.priority,
+                        t.raw.teb,
+                        t.raw.stack.start_of_memory_range,
+                        stack,
+                        ctx
+                    )
+                })
+                .collect();
+            let _ = write!(o, "[{}]", items.join(";"));
+        }
+    }
+    // modules
+    o.push_str(" M=");
+    match dump.get_stream::<MinidumpModuleList>() {
+        Err(e) => o.push_str(&err_name(&e)),
+        Ok(l) => {
+            let items: Vec<String> = l
+                .iter()
+                .map(|m| {
+                    let v = &m.raw.version_info;
+                    let ver = [
+                        v.signature,
+                        v.struct_version,
+                        v.file_version_hi,
+                        v.file_version_lo,
+                        v.product_version_hi,
+                        v.product_version_lo,
+                        v.file_flags_mask,
+                        v.file_flags,
+                        v.file_os,
+                        v.file_type,
+                        v.file_subtype,
+                        v.file_date_hi,
+                        v.file_date_lo,
+                    ];
+                    format!(
+                        "{},{},{},{},{},{},{},did={},cid={},df={},ver={}",
+                        m.raw.base_of_image,
+                        m.raw.size_of_image,
+                        m.raw.checksum,
+                        m.raw.time_date_stamp,
+                        dotted(&ver),
+                        name_text(&str_scalars(&m.name)),
+                        cv_text(m.codeview_info.as_ref(), be),
+                        opt_str(m.debug_identifier().map(|d| d.breakpad().to_string())),
+                        opt_str(m.code_identifier().map(|c| c.to_string())),
+                        match m.debug_file() {
+                            None => "~".to_string(),
+                            Some(f) => hex(f.as_bytes()),
+                        },
+                        opt_str(m.version().map(|v| v.to_string())),
+                    )
+                })
+                .collect();
+            let _ = write!(o, "[{}]", items.join(";"));
+        }
+    }
+    // memory (get_memory: Memory64 preferred)
+    o.push_str(" R=");
+    let mem = dump.get_memory();
+    match &mem {
+        None => {
+            // same error as the model's: the memory list's
+            match dump.get_stream::<MinidumpMemoryList>() {
+                Err(e) => o.push_str(&err_name(&e)),
+                Ok(_) => o.push_str("?"),
+            }
+            o.push_str(" P=-");
+        }
+        Some(l) => {
+            let items: Vec<String> = l
+                .iter()
+                .map(|r| match r {
+                    UnifiedMemory::Memory(m) => format!("{},{}", m.base_address, blob(m.bytes)),
+                    UnifiedMemory::Memory64(m) => format!("{},{}", m.base_address, blob(m.bytes)),
+                })
+                .collect();
+            let _ = write!(o, "[{}]", items.join(";"));
+            let rs: Vec<(u64, u64)> = l.iter().map(|r| (r.base_address(), r.size())).collect();
+            let probes: Vec<String> = probe_addrs(&rs)
+                .iter()
+                .map(|&a| match l.memory_at_address(a).and_then(|r| r.get_memory_at_address::<u8>(a)) {
+                    None => format!("{a}:~"),
+                    Some(b) => format!("{a}:{b}"),
+                })
+                .collect();
+            let _ = write!(o, " P={}", probes.join(","));
+        }
+    }
+    // memory info
+    o.push_str(" I=");
+    match dump.get_stream::<MinidumpMemoryInfoList>() {
+        Err(e) => o.push_str(&err_name(&e)),
+        Ok(l) => {
+            let items: Vec<String> = l
+                .iter()
+                .map(|r| {
+                    format!(
+                        "{},{},{},{},{},{},{}",
+                        r.raw.base_address,
+                        r.raw.allocation_base,
+                        r.raw.allocation_protection,
+                        r.raw.region_size,
+                        r.raw.state,
+                        r.raw.protection,
+                        r.raw._type
+                    )
+                })
+                .collect();
+            let _ = write!(o, "[{}]", items.join(";"));
+        }
+    }
+    // thread names
+    o.push_str(" N=");
+    match dump.get_stream::<MinidumpThreadNames>() {
+        Err(e) => o.push_str(&err_name(&e)),
+        Ok(names) => {
+            let mut ids: Vec<u32> = ids.to_vec();
+            ids.sort_unstable();
+            ids.dedup();
+            let items: Vec<String> = ids
+                .iter()
+                .filter_map(|id| names.get_name(*id).map(|n| format!("{},{}", id, name_text(&str_scalars(&n)))))
+                .collect();
+            let _ = write!(o, "[{}]", items.join(";"));
+        }
+    }
+    // unloaded
+    o.push_str(" U=");
+    match dump.get_stream::<MinidumpUnloadedModuleList>() {
+        Err(e) => o.push_str(&err_name(&e)),
+        Ok(l) => {
+            let items: Vec<String> = l
+                .iter()
+                .map(|m| {
+                    format!(
+                        "{},{},{},{},{}",
+                        m.raw.base_of_image,
+                        m.raw.size_of_image,
+                        m.raw.checksum,
+                        m.raw.time_date_stamp,
+                        name_text(&str_scalars(&m.name))
+                    )
+                })
+                .collect();
+            let _ = write!(o, "[{}]", items.join(";"));
+        }
+    }
+    // exception
+    o.push_str(" X=");
+    match dump.get_stream::<MinidumpException>() {
+        Err(e) => o.push_str(&err_name(&e)),
+        Ok(x) => {
+            let dbg = format!("{:?}", x);
+            let ctx = match debug_bytes(&dbg, ", context: ") {
+                Some(c) => opt_blob(c.as_deref()),
+                None => "?".into(),
+            };
+            let r = &x.raw.exception_record;
+            let _ = write!(
+                o,
+                "{},{},{},{},{},{},{},{}",
+                x.raw.thread_id,
+                r.exception_code,
+                r.exception_flags,
+                r.exception_record,
+                r.exception_address,
+                r.number_parameters,
+                dotted(&r.exception_information),
+                ctx
+            );
+        }
+    }
+    // system info
+    o.push_str(" S=");
+    match dump.get_stream::<MinidumpSystemInfo>() {
+        Err(e) => o.push_str(&err_name(&e)),
+        Ok(s) => {
+            let r = &s.raw;
+            let _ = write!(
+                o,
+                "{},{},{},{},{},{},{},{},{},{},{},{}",
+                r.processor_architecture,
+                r.processor_level,
+                r.processor_revision,
+                r.number_of_processors,
+                r.product_type,
+                r.major_version,
+                r.minor_version,
+                r.build_number,
+                r.platform_id,
+                r.suite_mask,
+                blob(&r.cpu.data),
+                match s.csd_version() {
+                    None => "~".to_string(),
+                    Some(c) => name_text(&str_scalars(&c)),
+                }
+            );
+        }
+    }
+    o
+}
+
+// --------------------------------------------- the oracle's own derivation of what must be reported
+
+fn os_of(m: &Model) -> Os {
+    match &m.sys {
+        None => Os::Unknown(0),
+        Some(s) => Os::from_platform_id(s.plat),
+    }
+}
+
+/// Identifier rules, written from the documentation of the formats (not from minidump.rs):
+/// * PDB 7.0: debug id = GUID as 32 upper-case hex digits (data1, data2, data3 as numbers, data4 as
+///   bytes) followed by the age in lower-case hex; absent for the nil GUID.
+/// * PDB 2.0: debug id = the signature (a timestamp) as 8 upper-case hex digits + age in lower-case hex.
+/// * ELF build id: absent when all bytes are zero; else the first 16 bytes (zero padded) are a GUID
+///   in the dump's byte order, age 0; code id = the whole build id in lower-case hex.
+/// * PE code id = timestamp as 8 hex digits + image size in hex, lower case (also on Windows without
+///   a CodeView record); on macOS/iOS the PDB 7.0 GUID in lower-case hex.
+/// * debug file = the PDB file name up to the first NUL; for ELF the module's own name.
+/// * version: only with the VS_FIXEDFILEINFO signature/struct version; Windows/macOS/iOS:
+///   hi16.lo16 of file_version_hi and _lo; elsewhere the four version words in decimal.
+fn module_ids(x: &Module, os: Os, be: bool) -> (Option<String>, Option<String>, Option<Vec<u32>>, Option<String>) {
+    let upper = |b: &[u8]| b.iter().map(|v| format!("{:02X}", v)).collect::<String>();
+    let lower = |b: &[u8]| b.iter().map(|v| format!("{:02x}", v)).collect::<String>();
+    let pe_code = format!("{:08x}{:x}", x.time, x.size);
+    let to_nul = |f: &[u8]| -> Option<Vec<u32>> {
+        let end = f.iter().position(|b| *b == 0).unwrap_or(f.len());
+        std::str::from_utf8(&f[..end]).ok().map(str_scalars)
+    };
+    let (did, cid, df) = match &x.cv {
+        None => (None, if os == Os::Windows { Some(pe_code) } else { None }, None),
+        Some(Cv::P7 { d1, d2, d3, d4, age, file }) => {
+            let guid = format!("{:08X}{:04X}{:04X}{}", d1, d2, d3, upper(&d4.data));
+            let nil = *d1 == 0 && *d2 == 0 && *d3 == 0 && d4.data.iter().all(|b| *b == 0);
+            let cid = if matches!(os, Os::MacOs | Os::Ios) { guid.to_lowercase() } else { pe_code };
+            (if nil { None } else { Some(format!("{}{:x}", guid, age)) }, Some(cid), to_nul(&file.data))
+        }
+        Some(Cv::P2 { sig, age, file, .. }) => (Some(format!("{:08X}{:x}", sig, age)), Some(pe_code), to_nul(&file.data)),
+        Some(Cv::Elf(b)) => {
+            if b.data.iter().all(|v| *v == 0) {
+                (None, None, Some(x.name.clone()))
+            } else {
+                let mut g = b.data.clone();
+                g.resize(16.max(g.len()), 0);
+                let g = &g[..16];
+                let did = if be {
+                    format!("{}0", upper(g))
+                } else {
+                    format!(
+                        "{:02X}{:02X}{:02X}{:02X}{:02X}{:02X}{:02X}{:02X}{}0",
+                        g[3],
+                        g[2],
+                        g[1],
+                        g[0],
+                        g[5],
+                        g[4],
+                        g[7],
+                        g[6],
+                        upper(&g[8..])
+                    )
+                };
+                (Some(did), Some(lower(&b.data)), Some(x.name.clone()))
+            }
+        }
+        Some(Cv::Unk(..)) => (None, None, None),
+    };
+    let ver = if x.ver[0] == 0xfeef04bd && x.ver[1] == 0x10000 {
+        if matches!(os, Os::Windows | Os::MacOs | Os::Ios) {
+            Some(format!("{}.{}.{}.{}", x.ver[2] >> 16, x.ver[2] & 0xffff, x.ver[3] >> 16, x.ver[3] & 0xffff))
+        } else {
+            Some(format!("{}.{}.{}.{}", x.ver[2], x.ver[3], x.ver[4], x.ver[5]))
+        }
+    } else {
+        None
+    };
+    (did, cid, df, ver)
+}
+
+/// the thread-name map: by id, last wins
+fn names_map(m: &Model) -> Vec<(u32, Vec<u32>)> {
+    let mut map = std::collections::BTreeMap::new();
+    for (id, n) in &m.names {
+        map.insert(*id, n.clone());
+    }
+    map.into_iter().collect()
+}
+
+/// the memory lookup a reader must provide: the byte of the region containing `a`, when exactly one
+/// region contains it (overlaps are C08's business) — `Err(())` = no claim
+fn model_byte_at(regions: &[&Region], a: u64) -> Result<Option<u8>, ()> {
+    let mut hit = None;
+    for (i, r) in regions.iter().enumerate() {
+        let len = r.bytes.data.len() as u128;
+        if len > 0 && (a as u128) >= r.base as u128 && (a as u128) < r.base as u128 + len {
+            if hit.is_some() || intersects_other(regions, i) {
+                return Err(());
+            }
+            hit = Some(r.bytes.data[(a - r.base) as usize]);
+        }
+    }
+    Ok(hit)
+}
+
+fn intersects_other(regions: &[&Region], i: usize) -> bool {
+    let r = regions[i];
+    let (lo, hi) = (r.base as u128, r.base as u128 + r.bytes.data.len() as u128);
+    regions.iter().enumerate().any(|(j, s)| {
+        let (slo, shi) = (s.base as u128, s.base as u128 + s.bytes.data.len() as u128);
+        j != i && shi > slo && lo < shi && slo < hi
+    })
+}
+
+/// What a correct reader reports for the model (format of `real_report`), with `?` for the probe
+/// results the property makes no claim about (addresses inside overlapping regions).
+fn expected_report(m: &Model, be: bool, mem64: bool, as_code: bool) -> String {
+    let os = os_of(m);
+    let mut o = String::new();
+    let _ = write!(o, "{} fl={}", if be { "be" } else { "le" }, m.flags);
+    let t: Vec<String> = m
+        .threads
+        .iter()
+        .map(|t| {
+            format!(
+                "{},{},{},{},{},{},{},{}",
+                t.id,
+                t.suspend,
+                t.pclass,
+                t.prio,
+                t.teb,
+                t.sbase,
+                if t.stack.data.is_empty() { "~".to_string() } else { blob(&t.stack.data) },
+                blob(&t.ctx.data)
+            )
+        })
+        .collect();
+    let _ = write!(o, " T=[{}]", t.join(";"));
+    let ms: Vec<String> = m
+        .modules
+        .iter()
+        // an entry of size 0 or wrapping around the address space is not a module. `as_code`: the code
+        // also drops a module that ends exactly at 2^64 (known finding)
+        .filter(|x| x.size != 0 && x.base as u128 + x.size as u128 <= (1u128 << 64) - as_code as u128)
+        .map(|x| {
+            let (did, cid, df, ver) = module_ids(x, os, be);
+            let cv = match &x.cv {
+                None => "-".to_string(),
+                Some(Cv::P7 { d1, d2, d3, d4, age, file }) => format!("p7:{d1}:{d2}:{d3}:{}:{age}:{}", blob(&d4.data), blob(&file.data)),
+                Some(Cv::P2 { off, sig, age, file }) => format!("p2:{off}:{sig}:{age}:{}", blob(&file.data)),
+                Some(Cv::Elf(b)) => format!("elf:{}", blob(&b.data)),
+                Some(Cv::Unk(sig, rest)) => format!("unk:{sig}:{}", blob(&rest.data)),
+            };
+            format!(
+                "{},{},{},{},{},{},{},did={},cid={},df={},ver={}",
+                x.base,
+                x.size,
+                x.chk,
+                x.time,
+                dotted(&x.ver),
+                name_text(&x.name),
+                cv,
+                opt_str(did),
+                opt_str(cid),
+                match df {
+                    None => "~".to_string(),
+                    Some(f) => hex(name_string(&f).as_bytes()),
+                },
+                opt_str(ver)
+            )
+        })
+        .collect();
+    let _ = write!(o, " M=[{}]", ms.join(";"));
+    // the 32-bit list cannot describe an empty region (the reader skips it); the 64-bit list keeps it
+    let regions: Vec<&Region> = m.regions.iter().filter(|r| mem64 || !r.bytes.data.is_empty()).collect();
+    let r: Vec<String> = regions.iter().map(|r| format!("{},{}", r.base, blob(&r.bytes.data))).collect();
+    let _ = write!(o, " R=[{}]", r.join(";"));
+    let rs: Vec<(u64, u64)> = regions.iter().map(|r| (r.base, r.bytes.data.len() as u64)).collect();
+    let probes: Vec<String> = probe_addrs(&rs)
+        .iter()
+        .map(|&a| match model_byte_at(&regions, a) {
+            Ok(None) => format!("{a}:~"),
+            Ok(Some(b)) => format!("{a}:{b}"),
+            Err(()) => format!("{a}:?"),
+        })
+        .collect();
+    let _ = write!(o, " P={}", probes.join(","));
+    let i: Vec<String> = m.infos.iter().map(|i| i.iter().map(|x| x.to_string()).collect::<Vec<_>>().join(",")).collect();
+    let _ = write!(o, " I=[{}]", i.join(";"));
+    let n: Vec<String> = names_map(m).iter().map(|(id, n)| format!("{},{}", id, name_text(n))).collect();
+    let _ = write!(o, " N=[{}]", n.join(";"));
+    let u: Vec<String> = m.unloaded.iter().map(|u| format!("{},{},{},{},{}", u.base, u.size, u.chk, u.time, name_text(&u.name))).collect();
+    if as_code && m.unloaded.iter().any(|u| u.size == 0 || u.base as u128 + u.size as u128 >= 1u128 << 64) {
+        // known finding: one unloaded module ending exactly at 2^64 fails the whole list
+        o.push_str(" U=err ModuleReadFailure");
+    } else {
+        let _ = write!(o, " U=[{}]", u.join(";"));
+    }
+    match &m.exc {
+        None => o.push_str(" X=err StreamNotFound"),
+        Some(x) => {
+            let _ = write!(o, " X={},{},{},{},{},{},{},{}", x.tid, x.code, x.flags, x.rec, x.addr, x.np, dotted(&x.info), blob(&x.ctx.data));
+        }
+    }
+    match &m.sys {
+        None => o.push_str(" S=err StreamNotFound"),
+        Some(s) => {
+            let _ = write!(
+                o,
+                " S={},{},{},{},{},{},{},{},{},{},{},{}",
+                s.arch,
+                s.level,
+                s.rev,
+                s.nproc,
+                s.ptype,
+                s.major,
+                s.minor,
+                s.build,
+                s.plat,
+                s.suite,
+                blob(&s.cpu.data),
+                name_text(&s.csd)
+            );
+        }
+    }
+    o
+}
+
+/// split a report into its sections `(key, text)`; the first token is the byte order
+fn sections(rep: &str) -> Vec<(String, String)> {
+    let mut out = Vec::new();
+    for (i, tok) in rep.split(' ').enumerate() {
+        if i == 0 {
+            out.push(("endian".to_string(), tok.to_string()));
+        } else if let Some((k, v)) = tok.split_once('=') {
+            // module entries contain `did=`…: only a leading upper-case key or `fl` starts a section
+            if k == "fl" || (k.len() == 1 && k.chars().all(|c| c.is_ascii_uppercase())) {
+                out.push((k.to_string(), v.to_string()));
+                continue;
+            }
+            if let Some(last) = out.last_mut() {
+                last.1.push(' ');
+                last.1.push_str(tok);
+            }
+        } else if let Some(last) = out.last_mut() {
+            last.1.push(' ');
+            last.1.push_str(tok);
+        }
+    }
+    out
+}
+
+/// compare a reader's report with the expected one; `?` probe results in `exp` match anything.
+/// Returns the keys of the sections that differ (for `P`: with the addresses that differ).
+fn diff_reports(got: &str, exp: &str) -> Vec<(String, Vec<u64>)> {
+    let (g, e) = (sections(got), sections(exp));
+    if g.len() != e.len() {
+        return vec![("shape".into(), vec![])];
+    }
+    let mut bad = Vec::new();
+    for ((gk, gv), (ek, ev)) in g.iter().zip(e.iter()) {
+        if gk != ek {
+            return vec![("shape".into(), vec![])];
+        }
+        if gk == "P" {
+            let (gp, ep): (Vec<&str>, Vec<&str>) = (gv.split(',').collect(), ev.split(',').collect());
+            if gp.len() != ep.len() {
+                bad.push((gk.clone(), vec![]));
+                continue;
+            }
+            let addrs: Vec<u64> = gp
+                .iter()
+                .zip(ep.iter())
+                .filter(|(a, b)| !(a == b || (b.ends_with(":?") && a.split(':').next() == b.split(':').next())))
+                .map(|(_, b)| b.split(':').next().and_then(|x| x.parse().ok()).unwrap_or(0))
+                .collect();
+            if !addrs.is_empty() {
+                bad.push((gk.clone(), addrs));
+            }
+        } else if gv != ev {
+            bad.push((gk.clone(), vec![]));
+        }
+    }
+    bad
+}
+
+/// classes of the known divergence between code and property text (see notes/C02.md)
+const CLASS_TOP: &str = "mem-top-of-address-space-unreachable";
+const CLASS_TOP_MODULE: &str = "module-at-top-of-address-space-dropped";
+const CLASS_TOP_UNLOADED: &str = "unloaded-module-at-top-of-address-space-fails-list";
+
+fn section_of(rep: &str, key: &str) -> Option<String> {
+    sections(rep).into_iter().find(|(k, _)| k == key).map(|(_, v)| v)
+}
+
+/// does the model contain a region that ends exactly at 2^64?
+fn top_region(m: &Model) -> bool {
+    m.regions.iter().any(|r| !r.bytes.data.is_empty() && r.base as u128 + r.bytes.data.len() as u128 == 1u128 << 64)
+}
+/// is `a` an address of a region that ends exactly at 2^64?
+fn in_top_region(m: &Model, a: u64) -> bool {
+    m.regions.iter().any(|r| !r.bytes.data.is_empty() && r.base as u128 + r.bytes.data.len() as u128 == 1u128 << 64 && a >= r.base)
+}
+
+const CFGS: [(bool, bool); 4] = [(false, false), (true, false), (false, true), (true, true)];
+
+fn name_ids(m: &Model) -> Vec<u32> {
+    let mut ids: Vec<u32> = m.names.iter().map(|(id, _)| *id).collect();
+    ids.extend(m.threads.iter().map(|t| t.id));
+    let more: Vec<u32> = ids.iter().map(|i| i.wrapping_add(1)).collect();
+    ids.extend(more);
+    ids.push(0);
+    ids
+}
+
+/// every address of every region that intersects no other region reads back the model's byte
+fn memory_oracle(m: &Model, bytes: &[u8], mem64: bool, tier_all: usize, oracle: &mut Vec<(String, String)>, tag: &str) {
+    let Ok(dump) = Minidump::<&[u8]>::read(bytes) else { return };
+    let Some(mem) = dump.get_memory() else { return };
+    let regions: Vec<&Region> = m.regions.iter().filter(|r| mem64 || !r.bytes.data.is_empty()).collect();
+    for (i, r) in regions.iter().enumerate() {
+        let len = r.bytes.data.len();
+        if len == 0 || intersects_other(&regions, i) {
+            continue;
+        }
+        let top = r.base as u128 + len as u128 == 1u128 << 64;
+        let offs: Vec<usize> = if len <= tier_all {
+            (0..len).collect()
+        } else {
+            let mut v: Vec<usize> = vec![0, 1, len / 2, len - 2, len - 1];
+            let mut x = fnv64(&r.base.to_le_bytes());
+            for _ in 0..256 {
+                x = x.wrapping_mul(6364136223846793005).wrapping_add(1442695040888963407);
+                v.push((x >> 33) as usize % len);
+            }
+            v
+        };
+        for off in offs {
+            let a = r.base + off as u64;
+            let got = mem.memory_at_address(a).and_then(|x| x.get_memory_at_address::<u8>(a));
+            if got != Some(r.bytes.data[off]) {
+                let class = if top { CLASS_TOP.to_string() } else { "memory-byte-differs".to_string() };
+                oracle.push((class, format!("{tag}: region base={} len={} address {} reads {:?}, the dump holds {}", r.base, len, a, got, r.bytes.data[off])));
+                break;
+            }
+        }
+    }
+}
 
 impl Engine for Roundtrip {
     fn name(&self) -> &'static str {
         "roundtrip"
     }
     fn rule(&self) -> String {
-        "not implemented".into()
+        "abstract dump models (0..40 items per list in the thorough tier, names from arbitrary well-formed UTF-16 incl. \
+         non-BMP, build ids of length 0..64, arbitrary GUID/age, regions up to 4 KiB (quick) / 64 KiB (thorough), \
+         addresses anywhere in u64 incl. the top of the address space, duplicate directory entries, optional list \
+         padding) x {LE,BE} x {MemoryList,Memory64List}; serialized by minidump-synth AND by the Lean encoder, read \
+         by the real crate AND by the Lean decoder; non-trivial = at least one thread, module or memory region"
+            .into()
     }
-    fn generate(&self, _tier: Tier, _rng: &mut Rng, _emit: &mut dyn FnMut(String)) {}
-    fn exec(&self, _case: &str) -> ImplResult {
-        ImplResult::default()
+
+    fn generate(&self, tier: Tier, rng: &mut Rng, emit: &mut dyn FnMut(String)) {
+        let n = if tier == Tier::Quick { 700 } else { 6000 };
+        for k in 0..n {
+            let m = gen_model(rng, tier, k);
+            emit(m.line());
+        }
     }
+
+    fn exec(&self, case: &str) -> ImplResult {
+        let mut res = ImplResult::default();
+        let Some(m) = Model::parse(case) else {
+            res.out = "bad-case".into();
+            res.oracle.push(("bad-case".into(), "the case line does not parse".into()));
+            return res;
+        };
+        let ids = name_ids(&m);
+        let mut outs = Vec::new();
+        let total: usize = m.regions.iter().map(|r| r.bytes.data.len()).sum();
+        for (be, mem64) in CFGS {
+            let tag = format!("{}/{}", if be { "be" } else { "le" }, if mem64 { "mem64" } else { "mem" });
+            let bytes = match catch(|| build_synth(&m, be, mem64)) {
+                Ok(Some(b)) => b,
+                _ => {
+                    res.oracle.push(("synth-failed".into(), format!("{tag}: minidump-synth could not serialize the model")));
+                    outs.push("synth-failed".to_string());
+                    continue;
+                }
+            };
+            let rep = match catch(|| real_report(&bytes, &ids)) {
+                Ok(r) => r,
+                Err(p) => {
+                    res.oracle.push(("reader-panic".into(), format!("{tag}: {p}")));
+                    "PANIC".to_string()
+                }
+            };
+            let exp = expected_report(&m, be, mem64, false);
+            let exp_code = expected_report(&m, be, mem64, true);
+            for (sec, addrs) in diff_reports(&rep, &exp) {
+                let as_code = section_of(&rep, &sec).is_some() && section_of(&rep, &sec) == section_of(&exp_code, &sec);
+                let class = if sec == "P" && !addrs.is_empty() && addrs.iter().all(|a| in_top_region(&m, *a)) {
+                    CLASS_TOP.to_string()
+                } else if sec == "M" && as_code {
+                    CLASS_TOP_MODULE.to_string()
+                } else if sec == "U" && as_code {
+                    CLASS_TOP_UNLOADED.to_string()
+                } else {
+                    format!("reported-differs-{sec}")
+                };
+                res.oracle.push((class, format!("{tag}: reader reports {rep} — the model is {exp}")));
+            }
+            let _ = catch(|| memory_oracle(&m, &bytes, mem64, 4096, &mut res.oracle, &tag));
+            // last duplicate served. For a type the serializer emits itself (after the extras) the
+            // report comparison above decides: a raw extra served in its place would be reported
+            // instead of the model's items. For any other type the LAST extra of that type is served.
+            if let Ok(dump) = Minidump::<&[u8]>::read(&bytes[..]) {
+                let core = |ty: u32| [3u32, 4, 5, 9, 16, 24, 14].contains(&ty) || (ty == 6 && m.exc.is_some()) || (ty == 7 && m.sys.is_some());
+                let mut seen = Vec::new();
+                for (ty, _) in m.extra.iter() {
+                    if core(*ty) || seen.contains(ty) {
+                        continue;
+                    }
+                    seen.push(*ty);
+                    let same_ty: Vec<&Blob> = m.extra.iter().filter(|(t2, _)| t2 == ty).map(|(_, b)| b).collect();
+                    let last = same_ty.last().unwrap();
+                    match dump.get_raw_stream(*ty) {
+                        Ok(raw) if raw == &last.data[..] => {}
+                        Ok(raw) => {
+                            let class = if same_ty.iter().any(|b| b.data == raw) { "earlier-duplicate-served" } else { "raw-stream-differs" };
+                            res.oracle.push((class.into(), format!("{tag}: stream type {ty}: {} entries, served {} — the last one is {}", same_ty.len(), hex(raw), last.text)));
+                        }
+                        Err(e) => res.oracle.push(("raw-stream-differs".into(), format!("{tag}: stream type {ty}: {}", e.name()))),
+                    }
+                }
+            }
+            outs.push(rep);
+        }
+        // LE and BE parse to the same result (the byte-order tag aside; an ELF debug id is by
+        // definition the GUID in the dump's byte order, so that field is compared per byte order
+        // against `expected_report` above and masked here)
+        for (a, b) in [(0usize, 1usize), (2, 3)] {
+            if outs.len() == 4 {
+                let strip = |s: &str| -> String {
+                    let s = s.splitn(2, ' ').nth(1).unwrap_or("").to_string();
+                    if m.modules.iter().any(|x| matches!(x.cv, Some(Cv::Elf(_)))) {
+                        mask_elf_debug_ids(&s)
+                    } else {
+                        s
+                    }
+                };
+                if strip(&outs[a]) != strip(&outs[b]) {
+                    res.oracle.push(("endian-dependent".into(), format!("LE: {} — BE: {}", outs[a], outs[b])));
+                }
+            }
+        }
+        res.out = outs.join(" ## ");
+        res.nontrivial = !m.threads.is_empty() || !m.modules.is_empty() || !m.regions.is_empty();
+        res.tags.push(format!("threads:{}", bucket(m.threads.len())));
+        res.tags.push(format!("modules:{}", bucket(m.modules.len())));
+        res.tags.push(format!("regions:{}", bucket(m.regions.len())));
+        res.tags.push(format!("membytes:{}", bucket(total)));
+        res.tags.push(format!("pad:{}", m.pad as u8));
+        res.tags.push(format!("extras:{}", bucket(m.extra.len())));
+        if m.exc.is_some() {
+            res.tags.push("exception".into());
+        }
+        if let Some(s) = &m.sys {
+            res.tags.push(format!("os:{:?}", Os::from_platform_id(s.plat)).replace(['(', ')'], "_"));
+        } else {
+            res.tags.push("os:none".into());
+        }
+        for x in &m.modules {
+            res.tags.push(
+                match &x.cv {
+                    None => "cv:none",
+                    Some(Cv::P7 { .. }) => "cv:pdb70",
+                    Some(Cv::P2 { .. }) => "cv:pdb20",
+                    Some(Cv::Elf(_)) => "cv:elf",
+                    Some(Cv::Unk(..)) => "cv:unknown",
+                }
+                .into(),
+            );
+        }
+        if top_region(&m) {
+            res.tags.push("region-at-top".into());
+        }
+        res
+    }
+
+    fn model_request(&self, case: &str) -> Option<String> {
+        let m = Model::parse(case)?;
+        let mut hexes = Vec::new();
+        for (be, mem64) in CFGS {
+            let bytes = catch(|| build_synth(&m, be, mem64)).ok().flatten()?;
+            hexes.push(hex(&bytes));
+        }
+        let model = case.strip_prefix("roundtrip ")?;
+        Some(format!("roundtrip all {} {}", hexes.join(" "), model))
+    }
+
+    /// `model_out` = 4 decode answers ## 4 encodings (hex) ## 4 `report`s
+    fn same(&self, impl_out: &str, model_out: &str) -> bool {
+        let i: Vec<&str> = impl_out.split(" ## ").collect();
+        let mo: Vec<&str> = model_out.split(" ## ").collect();
+        if i.len() != 4 || mo.len() != 12 {
+            return false;
+        }
+        // 1. the model decoder agrees with the real reader on the foreign serializer's files
+        if (0..4).any(|k| i[k] != mo[k]) {
+            return false;
+        }
+        // the model is recovered from the impl's own first report? no: re-derive from the encodings.
+        // 2. the real reader reads the Lean encoder's files and reports what the Lean `report` says,
+        //    and 3. both equal the real reader's report of the synth file in the same configuration
+        //    (i.e. all three serializer/reader pairings agree).
+        for k in 0..4 {
+            let Some(bytes) = unhex(mo[4 + k]) else { return false };
+            // thread ids for the name map: every id mentioned in the Lean report's N section
+            let ids: Vec<u32> = sections(mo[8 + k])
+                .iter()
+                .filter(|(key, _)| key == "N")
+                .flat_map(|(_, v)| {
+                    v.trim_matches(['[', ']']).split(';').filter_map(|it| it.split(',').next().and_then(|x| x.parse::<u32>().ok())).collect::<Vec<_>>()
+                })
+                .flat_map(|id| [id, id.wrapping_add(1), 0])
+                .collect();
+            let real_on_lean = match catch(|| real_report(&bytes, &ids)) {
+                Ok(r) => r,
+                Err(_) => return false,
+            };
+            if real_on_lean != mo[8 + k] {
+                return false;
+            }
+            if real_on_lean != i[k] {
+                return false;
+            }
+        }
+        true
+    }
+
+    fn shrink(&self, case: &str, still_fails: &dyn Fn(&str) -> bool) -> String {
+        let Some(mut m) = Model::parse(case) else { return case.to_string() };
+        // drop list items one at a time while the failure persists
+        macro_rules! shrink_list {
+            ($field:ident) => {
+                let mut i = 0;
+                while i < m.$field.len() {
+                    let mut c = m.clone();
+                    c.$field.remove(i);
+                    if still_fails(&c.line()) {
+                        m = c;
+                    } else {
+                        i += 1;
+                    }
+                }
+            };
+        }
+        shrink_list!(threads);
+        shrink_list!(modules);
+        shrink_list!(regions);
+        shrink_list!(infos);
+        shrink_list!(names);
+        shrink_list!(unloaded);
+        shrink_list!(extra);
+        for f in 0..4 {
+            let mut c = m.clone();
+            match f {
+                0 => c.exc = None,
+                1 => c.sys = None,
+                2 => c.pad = false,
+                _ => c.flags = 0,
+            }
+            if c != m && still_fails(&c.line()) {
+                m = c;
+            }
+        }
+        // smaller blobs
+        for i in 0..m.regions.len() {
+            for len in [0usize, 1, 2, 16] {
+                if len < m.regions[i].bytes.data.len() {
+                    let mut c = m.clone();
+                    c.regions[i].bytes = Blob::pat(1, len);
+                    if still_fails(&c.line()) {
+                        m = c;
+                        break;
+                    }
+                }
+            }
+        }
+        for i in 0..m.threads.len() {
+            for which in 0..2 {
+                let mut c = m.clone();
+                if which == 0 {
+                    c.threads[i].stack = Blob::pat(2, 1.min(c.threads[i].stack.data.len()));
+                } else {
+                    c.threads[i].ctx = Blob::raw(vec![]);
+                }
+                if c != m && still_fails(&c.line()) {
+                    m = c;
+                }
+            }
+        }
+        m.line()
+    }
+}
+
+/// replace the `did=` value of modules with an ELF record by `*` (see the comment at the call site)
+fn mask_elf_debug_ids(rep: &str) -> String {
+    let mut out = String::new();
+    let mut rest = rep;
+    while let Some(p) = rest.find(",elf:") {
+        let Some(q) = rest[p..].find(",did=") else { break };
+        let Some(r) = rest[p + q..].find(",cid=") else { break };
+        out.push_str(&rest[..p + q + 5]);
+        out.push('*');
+        rest = &rest[p + q + r..];
+    }
+    out.push_str(rest);
+    out
+}
+
+fn bucket(n: usize) -> &'static str {
+    match n {
+        0 => "0",
+        1 => "1",
+        2..=4 => "2-4",
+        5..=16 => "5-16",
+        17..=40 => "17-40",
+        41..=4096 => "41-4096",
+        _ => ">4096",
+    }
+}
+
+// ------------------------------------------------------------------------------------- generator
+
+fn rand_scalar(rng: &mut Rng) -> u32 {
+    loop {
+        let c = match rng.below(8) {
+            0..=3 => rng.range(0x20, 0x7e) as u32,
+            4 => rng.range(0x80, 0xd7ff) as u32,
+            5 => rng.range(0xe000, 0xffff) as u32,
+            6 => rng.range(0x10000, 0x10ffff) as u32,
+            _ => *rng.pick(&[0u32, 1, 0xd7ff, 0xe000, 0xfffd, 0xffff, 0x10000, 0x10ffff, 0x1f600]),
+        };
+        if char::from_u32(c).is_some() {
+            return c;
+        }
+    }
+}
+
+fn rand_name(rng: &mut Rng, max: u64) -> Vec<u32> {
+    if rng.chance(1, 5) {
+        let pool = ["libxul.so", "C:\\Windows\\System32\\ntdll.dll", "κόσμε", "日本語", "😀 emoji", "", "/usr/lib/libc.so.6", "a"];
+        let s: &&str = rng.pick(&pool[..]); return str_scalars(s);
+    }
+    let n = rng.below(max + 1);
+    (0..n).map(|_| rand_scalar(rng)).collect()
+}
+
+fn rand_u64(rng: &mut Rng) -> u64 {
+    match rng.below(8) {
+        0 => *rng.pick(&[0u64, 1, u32::MAX as u64, 1 << 32, u64::MAX, u64::MAX - 1, 1 << 63, (1 << 47) - 1]),
+        1 => u64::MAX - rng.below(0x2_0000),
+        2 => rng.below(0x1_0000),
+        _ => rng.next() >> rng.below(64),
+    }
+}
+fn rand_u32(rng: &mut Rng) -> u32 {
+    match rng.below(6) {
+        0 => *rng.pick(&[0u32, 1, u32::MAX, u32::MAX - 1, 1 << 31, 0xffff, 0x10000]),
+        _ => (rng.next() >> rng.below(32)) as u32,
+    }
+}
+
+fn rand_blob(rng: &mut Rng, max: usize) -> Blob {
+    let len = match rng.below(6) {
+        0 => 0,
+        1 => rng.below(4) as usize,
+        2 => max,
+        _ => rng.below(max as u64 + 1) as usize,
+    };
+    if len <= 24 && rng.chance(1, 2) {
+        Blob::raw((0..len).map(|_| rng.next() as u8).collect())
+    } else {
+        Blob::pat(rng.below(256), len)
+    }
+}
+
+/// a context record the reader's CPU-specific parser would accept, or arbitrary bytes: C02 carries
+/// contexts as raw bytes
+fn rand_ctx(rng: &mut Rng, be: bool) -> Blob {
+    let e = tend(be);
+    match rng.below(6) {
+        0 => Blob::raw(synth::x86_context(e, rng.next() as u32, rng.next() as u32).get_contents().unwrap_or_default()),
+        1 => Blob::raw(synth::amd64_context(e, rng.next(), rng.next()).get_contents().unwrap_or_default()),
+        2 => Blob::raw(synth::arm64_context(e, rng.next(), rng.next()).get_contents().unwrap_or_default()),
+        3 => Blob::raw(vec![]),
+        _ => rand_blob(rng, 300),
+    }
+}
+
+fn rand_cv(rng: &mut Rng) -> Option<Cv> {
+    let file = |rng: &mut Rng| -> Blob {
+        let pool: [&[u8]; 6] = [b"c:\\foo\\file.pdb\0", b"file.pdb", b"\0", b"", b"a.pdb\0junk\0", "κόσμε.pdb\0".as_bytes()];
+        Blob::raw(rng.pick(&pool).to_vec())
+    };
+    match rng.below(7) {
+        0 | 1 => {
+            let zero = rng.chance(1, 8);
+            Some(Cv::P7 {
+                d1: if zero { 0 } else { rand_u32(rng) },
+                d2: if zero { 0 } else { rng.next() as u16 },
+                d3: if zero { 0 } else { rng.next() as u16 },
+                d4: Blob::raw(if zero { vec![0; 8] } else { (0..8).map(|_| rng.next() as u8).collect() }),
+                age: if rng.chance(1, 2) { rng.below(20) as u32 } else { rand_u32(rng) },
+                file: file(rng),
+            })
+        }
+        2 => Some(Cv::P2 { off: rand_u32(rng), sig: rand_u32(rng), age: rand_u32(rng), file: file(rng) }),
+        3 | 4 => {
+            // build ids of length 0..64, all-zero ones included
+            let len = *rng.pick(&[0usize, 1, 8, 15, 16, 17, 20, 32, 64, 3, 40]);
+            let len = if rng.chance(1, 3) { rng.below(65) as usize } else { len };
+            let zero = rng.chance(1, 8);
+            Some(Cv::Elf(Blob::raw((0..len).map(|_| if zero { 0 } else { rng.next() as u8 }).collect())))
+        }
+        5 => {
+            // a signature that is none of the three known ones in EITHER byte order
+            let sig = loop {
+                let s = rand_u32(rng);
+                let known = [md::CvSignature::Pdb70 as u32, md::CvSignature::Pdb20 as u32, md::CvSignature::Elf as u32];
+                if !known.contains(&s) && !known.contains(&s.swap_bytes()) {
+                    break s;
+                }
+            };
+            Some(Cv::Unk(sig, rand_blob(rng, 40)))
+        }
+        _ => None,
+    }
+}
+
+fn gen_model(rng: &mut Rng, tier: Tier, k: usize) -> Model {
+    let thorough = tier == Tier::Thorough;
+    let max_items: u64 = if thorough {
+        if k % 10 == 0 {
+            40
+        } else {
+            8
+        }
+    } else if k % 25 == 0 {
+        12
+    } else {
+        4
+    };
+    let max_region: usize = if thorough {
+        if k % 50 == 0 {
+            65536
+        } else {
+            2048
+        }
+    } else if k % 40 == 0 {
+        4096
+    } else {
+        256
+    };
+    let mut m = Model { flags: if rng.chance(1, 2) { 0 } else { rand_u64(rng) }, pad: rng.chance(1, 3), ..Default::default() };
+    let be_ctx = rng.chance(1, 2);
+    let count = |rng: &mut Rng| -> u64 {
+        match rng.below(5) {
+            0 => 0,
+            1 => 1,
+            _ => rng.below(max_items + 1),
+        }
+    };
+    // system info
+    if rng.chance(4, 5) {
+        let plats = [1u32, 2, 3, 4, 0x8000, 0x8101, 0x8102, 0x8201, 0x8202, 0x8203, 0x8204, 0x8205, 0, 0xdead];
+        m.sys = Some(Sys {
+            arch: *rng.pick(&[0u16, 9, 5, 12, 1, 3, 0x8003, 0xffff]),
+            level: rng.next() as u16,
+            rev: rng.next() as u16,
+            nproc: rng.next() as u8,
+            ptype: rng.next() as u8,
+            major: rand_u32(rng),
+            minor: rand_u32(rng),
+            build: rand_u32(rng),
+            plat: *rng.pick(&plats),
+            suite: rng.next() as u16,
+            cpu: Blob::raw((0..24).map(|_| rng.next() as u8).collect()),
+            csd: rand_name(rng, 12),
+        });
+    }
+    // threads
+    let nt = count(rng);
+    for i in 0..nt {
+        let plain = rng.chance(1, 2);
+        m.threads.push(Thread {
+            id: if rng.chance(1, 6) { rand_u32(rng) } else { 0x100 + i as u32 },
+            suspend: if plain { 0 } else { rand_u32(rng) },
+            pclass: if plain { 0 } else { rand_u32(rng) },
+            prio: if plain { 0 } else { rand_u32(rng) },
+            teb: if plain { 0 } else { rand_u64(rng) },
+            sbase: rand_u64(rng),
+            stack: rand_blob(rng, 200.min(max_region)),
+            ctx: rand_ctx(rng, be_ctx),
+        });
+    }
+    // synth writes either all threads itself or none: make the list homogeneous
+    if m.threads.iter().any(|t| t.suspend != 0 || t.pclass != 0 || t.prio != 0 || t.teb != 0) {
+        for t in m.threads.iter_mut() {
+            if t.suspend == 0 && t.pclass == 0 && t.prio == 0 && t.teb == 0 {
+                t.suspend = 1;
+            }
+        }
+    }
+    // modules
+    for i in 0..count(rng) {
+        let top = rng.chance(1, 10);
+        let size = if rng.chance(1, 12) { 0 } else { 0x1000 + (rng.below(0x8000) as u32) };
+        let base = if top { (u64::MAX - size as u64).saturating_add(rng.below(3)).saturating_sub(1) } else if rng.chance(1, 6) { rand_u64(rng) } else { 0x4000_0000 + 0x10_0000 * i };
+        let mut ver = [0u32; 13];
+        if rng.chance(2, 3) {
+            ver[0] = 0xfeef04bd;
+            ver[1] = if rng.chance(7, 8) { 0x10000 } else { rand_u32(rng) };
+        } else if rng.chance(1, 2) {
+            ver[0] = rand_u32(rng);
+            ver[1] = 0x10000;
+        }
+        for v in ver.iter_mut().skip(2) {
+            *v = rand_u32(rng);
+        }
+        m.modules.push(Module { base, size, chk: rand_u32(rng), time: rand_u32(rng), ver, name: rand_name(rng, 30), cv: rand_cv(rng) });
+    }
+    // memory regions: mostly disjoint, some at the very top of the address space, some overlapping
+    let nr = count(rng);
+    let mut next_base: u64 = 0x1000 + rng.below(0x1000);
+    for i in 0..nr {
+        let bytes = rand_blob(rng, max_region);
+        let len = bytes.data.len() as u64;
+        let base = match rng.below(12) {
+            0 if len > 0 => u64::MAX - len + 1,          // ends exactly at 2^64
+            1 if len > 0 => u64::MAX - len,              // ends at 2^64 - 1
+            2 if i > 0 => m.regions[rng.below(i) as usize].base, // same base as another region
+            3 => rand_u64(rng).min(u64::MAX - len),
+            _ => {
+                let b = next_base;
+                next_base += len + rng.below(3) * rng.below(0x100);
+                b
+            }
+        };
+        m.regions.push(Region { base, bytes });
+    }
+    for _ in 0..count(rng) {
+        m.infos.push([rand_u64(rng), rand_u64(rng), rand_u32(rng) as u64, rand_u64(rng), rand_u32(rng) as u64, rand_u32(rng) as u64, rand_u32(rng) as u64]);
+    }
+    for i in 0..count(rng) {
+        let id = if rng.chance(1, 4) && i > 0 { m.names[rng.below(i) as usize].0 } else if rng.chance(1, 6) { rand_u32(rng) } else { 0x100 + i as u32 };
+        m.names.push((id, rand_name(rng, 24)));
+    }
+    for i in 0..count(rng) {
+        m.unloaded.push(Unloaded {
+            base: if rng.chance(1, 6) { rand_u64(rng).min(u64::MAX - 0x10000) } else { 0x5000_0000 + 0x1000 * i },
+            size: 1 + rng.below(0x8000) as u32,
+            chk: rand_u32(rng),
+            time: rand_u32(rng),
+            name: rand_name(rng, 24),
+        });
+        // now and then one that ends at 2^64 - 1, rarely exactly at 2^64 (known finding)
+        let u = m.unloaded.last_mut().unwrap();
+        if rng.chance(1, 12) {
+            u.base = u64::MAX - u.size as u64 + rng.below(2) * rng.below(2);
+        }
+    }
+    if rng.chance(1, 2) {
+        let mut info = [0u64; 15];
+        for v in info.iter_mut() {
+            *v = rand_u64(rng);
+        }
+        m.exc = Some(Exc {
+            tid: if m.threads.is_empty() { rand_u32(rng) } else { m.threads[0].id },
+            code: *rng.pick(&[0xC0000005u32, 0xC0000006, 11, 6, 0x80000003, 1, 0xdeadbeef]),
+            flags: rand_u32(rng),
+            rec: rand_u64(rng),
+            addr: rand_u64(rng),
+            np: *rng.pick(&[0u32, 1, 2, 15, 16, u32::MAX]),
+            info,
+            ctx: rand_ctx(rng, be_ctx),
+        });
+    }
+    // duplicate directory entries: raw streams under types that occur again later, and foreign types
+    if rng.chance(1, 3) {
+        for _ in 0..1 + rng.below(3) {
+            let mut tys = vec![3u32, 4, 16, 24, 14, 0x4767_0001, 0xffff_0000, 15];
+            if m.exc.is_some() {
+                tys.push(6);
+            }
+            if m.sys.is_some() {
+                tys.push(7);
+            }
+            let ty = *rng.pick(&tys);
+            m.extra.push((ty, rand_blob(rng, 60)));
+        }
+    }
+    m
 }
